@@ -91,8 +91,11 @@ macro_rules! define_histogram_common {
             /// Fails if the sample is out of range of the histogram.
             #[inline]
             pub fn find(&self, x: f64) -> Result<usize, $crate::SampleOutOfRangeError> {
-                // We made sure our ranges are valid at construction, so we can
-                // safely unwrap.
+                if x.is_nan() {
+                    return Err($crate::SampleOutOfRangeError);
+                }
+                // We made sure our ranges are valid at construction and `x`
+                // is not NaN, so we can safely unwrap.
                 match self.range.binary_search_by(|p| p.partial_cmp(&x).unwrap()) {
                     Ok(i) if i < LEN => Ok(i),
                     Err(i) if i > 0 && i < LEN + 1 => Ok(i - 1),
